@@ -881,6 +881,10 @@ func runConc(prop, tier string, r *rng) {
 		for _, b := range []int{1, 2, 64} {
 			gatedCase(prop, 9, 5, b) // not contiguous with Head
 			gatedCase(prop, 6, 5, b) // contiguous
+			for _, wipe := range []bool{false, true} {
+				emptyWaitCase(prop, wipe, 8, b)
+				emptyWaitCase(prop, wipe, 1, b)
+			}
 			for _, where := range []string{"before", "after"} {
 				gatedCaseOn(prop, "ctx", where, 9, 5, b)
 				gatedCaseOn(prop, "ctx", where, 6, 5, b)
@@ -954,4 +958,55 @@ func resumeWalkCase(prop string, fault bool) {
 		}
 	}
 	emit("%s kind=resumewalk fault=%d => mid=%d head=%d readable=%d monitor=%s", prop, b2i(fault), mid, hd, readable, mon.finish())
+}
+
+// emptyWaitCase: a reader is parked on height `target` while the store has NO head - a fresh store over an empty datastore,
+// or (wipe) a store emptied by a whole-chain DeleteRange while the reader was already waiting. The first header appended
+// afterwards is exactly the awaited one: the reader gets it.
+func emptyWaitCase(prop string, wipe bool, target uint64, batch int) {
+	ctx := context.Background()
+	chain := vhdr.Chain("A", 12, time.Now().Add(-time.Hour).UnixNano(), 1e9, 0)
+	core := memds.NewCore()
+	st, err := store.NewStore[*vhdr.Header](&memds.Plain{C: core}, store.WithWriteBatchSize(batch))
+	if err != nil {
+		panic(err)
+	}
+	if err := func() error { sc, end := startCtx(); defer end(); return st.Start(sc) }(); err != nil {
+		panic(err)
+	}
+	defer st.Stop(ctx) //nolint:errcheck
+	if wipe {
+		if target <= 5 {
+			target = 9
+		}
+		_ = st.Append(ctx, chain[:5]...)
+		_ = st.Sync(ctx)
+	}
+	res := make(chan string, 1)
+	go func() {
+		c, cancel := context.WithTimeout(ctx, 1200*time.Millisecond)
+		defer cancel()
+		h, err := st.GetByHeight(c, target)
+		switch {
+		case err == nil && h.H == target:
+			res <- "found"
+		case errors.Is(err, context.DeadlineExceeded):
+			res <- "ctxErr"
+		case errors.Is(err, header.ErrNotFound):
+			res <- "notFound"
+		default:
+			res <- "err"
+		}
+	}()
+	time.Sleep(40 * time.Millisecond) // the reader is parked by now
+	del := "-"
+	if wipe {
+		c, cancel := context.WithTimeout(ctx, 2*time.Second)
+		del = errs(st.DeleteRange(c, 1, 6))
+		cancel()
+	}
+	_ = st.Append(ctx, chain[target-1])
+	_ = st.Sync(ctx)
+	out := <-res
+	emit("%s kind=gated flavour=plain where=%s target=%d head=0 batch=%d => result=%s wipe=%s", prop, map[bool]string{true: "parked-then-wiped", false: "empty-store"}[wipe], target, batch, out, del)
 }
